@@ -291,6 +291,11 @@ pub const C10: ConcCheck = ConcCheck {
     mk_probe: NO_PROBE,
 };
 
+/// long insert-heavy programs on 4-8 threads, random tapes only: this is the family in which the
+/// repaired defect F6 (a helper joining the next resize generation) shows up about once per
+/// thousand executions
+pub const C10L: ConcCheck = ConcCheck { sub: "resize-long", mix: Mix::Long, max_threads: 8, max_ops: 16, ..C10 };
+
 #[derive(Clone, Debug, Serialize, Deserialize)]
 struct StampCase {
     log2: u32,
@@ -345,6 +350,8 @@ fn c10_shard(ctx: &Ctx, out: &mut ShardOut) {
     let pool = Pool::new();
     let b = budget_for(ctx.tier, ctx.shard_seed(81));
     C10.run(ctx, &pool, 10, ctx.share(ctx.by_tier(320, 10_000)) as u32, &b, out);
+    let lb = Budget { single: 0, double: 0, coarse2: 0, tapes: ctx.by_tier(40, 200) as usize, tape_seed: ctx.shard_seed(91) };
+    C10L.run(ctx, &pool, 18, ctx.share(ctx.by_tier(160, 4_000)) as u32, &lb, out);
     // sequential part: growth happens, exactly doubling, threshold 0.75 n afterwards
     let or = crate::seq::Oracles { growth: true, quiescent: true, ..Default::default() };
     drive(ctx, "seq-growth", ctx.shard_seed(16), ctx.share(ctx.by_tier(1500, 40_000)) as u32, seq_case_strategy(false, 120), out, |c| {
@@ -365,6 +372,7 @@ fn c10_shard(ctx: &Ctx, out: &mut ShardOut) {
 }
 fn c10_replay(sub: &str, case: &Value) -> Result<(), CaseFail> {
     match sub {
+        "resize-long" => C10L.replay(&Pool::new(), case, &Budget { single: 0, double: 0, coarse2: 0, tapes: 200, tape_seed: 1 }),
         "stamps" => check_stamps().map(|_| ()).map_err(|m| CaseFail { prop: "C10".into(), msg: format!("[C10] {}", m) }),
         "seq-growth" => {
             let c: SeqCase = serde_json::from_value(case.clone()).map_err(|e| CaseFail { prop: "C10".into(), msg: format!("bad replay file: {}", e) })?;
